@@ -199,7 +199,7 @@ void WriteRecordHeader(
 }
 
 void SkipRecord(Byte Header, char const* Name, FILE* f) {
-    int      Length;
+    long     Length;
     LongWord Addr, RelocCount, ExportCount, StringLen;
     Word     Len;
 
@@ -220,7 +220,7 @@ void SkipRecord(Byte Header, char const* Name, FILE* f) {
         if (!Read4(f, &StringLen)) {
             ChkIO(Name);
         }
-        Length = (16 * RelocCount) + (16 * ExportCount) + StringLen;
+        Length = (16 * (long)RelocCount) + (16 * (long)ExportCount) + (long)StringLen;
         break;
     default:
         if (!Read4(f, &Addr)) {
